@@ -438,7 +438,9 @@ func init() {
 	reg("os.Getpid", func(e *Engine, args []Value, fn *ssa.Function) Value { return e.intC(4242) })
 
 	// math/rand & crypto/rand: fresh unconstrained values
-	reg("math/rand.Uint32", func(e *Engine, args []Value, fn *ssa.Function) Value { return e.newNondetEnv("u32", 32, "math/rand.Uint32") })
+	reg("math/rand.Uint32", func(e *Engine, args []Value, fn *ssa.Function) Value {
+		return e.newNondetEnv("u32", 32, "math/rand.Uint32")
+	})
 	reg("math/rand.Int", func(e *Engine, args []Value, fn *ssa.Function) Value {
 		v := e.newNondetEnv("u64", 64, "math/rand.Int")
 		return e.ctx.Bin(smt.OpBVAnd, v, e.ctx.BV(1<<63-1, 64))
